@@ -270,10 +270,6 @@ impl Prog {
             add(t.fate == Fate::Park, "park");
             add(t.fate == Fate::NoPoll, "nopoll");
             add(t.hold, "hold");
-            add(t.fresh, "fresh");
-            add(matches!(t.when, When::Past(_)), "past");
-            add(matches!(t.when, When::Now), "now");
-            add(t.when.is_far(), "far");
             add(t.api.is_timeout(), "tmo");
             add(matches!(t.script, Script::Io(_)) && t.api.is_timeout(), "tmo-io");
             add(matches!(t.script, Script::XWake(_)) && t.api.is_timeout(), "tmo-xwake");
@@ -281,7 +277,6 @@ impl Prog {
         add(self.nhosts > 1, "tasks");
         add(!self.ios.is_empty(), "io");
         add(!self.xws.is_empty(), "xwake");
-        add(self.lazy, "lazy");
         for i in &self.ivs {
             add(i.plain, "iv-plain");
             add(!i.plain, "iv-at");
@@ -611,6 +606,8 @@ struct Counters {
     acts_drop_in_other_task: Cell<u64>,
     acts_create: Cell<u64>,
     created_past: Cell<u64>,
+    waker_drops: Cell<u64>,
+    waker_creates: Cell<u64>,
 }
 
 fn bump(c: &Cell<u64>) {
@@ -679,13 +676,22 @@ impl World {
         }
     }
 
-    fn script_fut(self: &Rc<Self>, s: Script) -> Pin<Box<dyn Future<Output = ()>>> {
+    fn script_fut(self: &Rc<Self>, s: Script, t: &Rc<Track>) -> Pin<Box<dyn Future<Output = ()>>> {
         match s {
             Script::Never => Box::pin(std::future::pending::<()>()),
-            Script::AtPoll { k, selfwake } => Box::pin(PollCount { n: 0, k, selfwake }),
-            Script::WhenPast(off) => Box::pin(WhenPastFut(add_ns(self.t0.get(), off))),
+            Script::AtPoll { k, selfwake } => {
+                *t.would_be_ready.borrow_mut() = Some(Box::new(move |t: &Track| t.polls.get() + 1 >= k));
+                Box::pin(PollCount { n: 0, k, selfwake })
+            }
+            Script::WhenPast(off) => {
+                let at = add_ns(self.t0.get(), off);
+                *t.would_be_ready.borrow_mut() = Some(Box::new(move |_: &Track| Instant::now() >= at));
+                Box::pin(WhenPastFut(at))
+            }
             Script::XWake(off) => {
                 let f = XFlag::new();
+                let f2 = f.clone();
+                *t.would_be_ready.borrow_mut() = Some(Box::new(move |_: &Track| f2.set.load(Ordering::SeqCst)));
                 self.send(Cmd::Flag(add_ns(self.t0.get(), off), f.clone()));
                 Box::pin(XWait(f))
             }
@@ -721,7 +727,7 @@ impl World {
             self.next_value.set(v + 1);
             Track::new(v)
         });
-        let inner = track.as_ref().map(|t| Tracked::new(self.script_fut(spec.script), t.clone()));
+        let inner = track.as_ref().map(|t| Tracked::new(self.script_fut(spec.script, t), t.clone()));
         let c0 = Instant::now();
         let target = self.resolve(spec.when, c0);
         let dur = target.saturating_duration_since(c0);
@@ -959,7 +965,7 @@ async fn iv_actor(w: Rc<World>, spec: IvSpec) {
     let mut start = if spec.plain { None } else { Some(start_lo) };
     let mut prev: Option<Instant> = None;
     let mut k = 0usize;
-    let mut check = |t: Instant, fp: Option<(Instant, Instant)>, k: &mut usize, prev: &mut Option<Instant>, start: &mut Option<Instant>, rec: Option<usize>| {
+    let check = |t: Instant, fp: Option<(Instant, Instant)>, k: &mut usize, prev: &mut Option<Instant>, start: &mut Option<Instant>, rec: Option<usize>| {
         bump(&w.cnt.ticks);
         if *k == 0 {
             if spec.plain {
@@ -1509,7 +1515,7 @@ fn gen_prog(rng: &mut Rng, only: Option<&str>) -> Prog {
                 p.timers[a].on_wake.push(Act::Create(v));
                 p.shape = "create-in-waker".into();
             }
-            p.idle_ms = 0;
+            p.idle_ms = 5;
             p
         }
         _ => {
@@ -1596,6 +1602,10 @@ fn run_prog(p: &Prog, kick: &mpsc::Sender<Cmd>, rng: Rng, counters: &mut dyn FnM
             if let Some(w) = w.upgrade() {
                 let acts = w.prog.timers[id].on_wake.clone();
                 for a in acts {
+                    match a {
+                        Act::Drop(_) => bump(&w.cnt.waker_drops),
+                        Act::Create(_) => bump(&w.cnt.waker_creates),
+                    }
                     w.act(a);
                 }
             }
@@ -1726,7 +1736,6 @@ pub fn main(args: &Args) {
         std::thread::Builder::new().name("c09-heartbeat".into()).spawn(move || heartbeat(rep)).expect("spawn heartbeat");
     }
     let only = args.get("family").map(|s| s.to_string());
-    let base_rng = Rng::new(args.seed()).fork(args.shard() + 1);
 
     let mut tot = Totals::default();
     let mut run_one = |index: u64, seed: u64, shard: u64, only: Option<&str>, rep: &Arc<Mutex<Report>>| {
@@ -1755,7 +1764,6 @@ pub fn main(args: &Args) {
             run_one(index, seed, shard, fam.as_deref(), &rep);
         }
     } else {
-        let _ = base_rng;
         let iters = args.iters(100_000, 1_000_000) as u64;
         let mut i = 0u64;
         while i < iters {
@@ -1790,6 +1798,8 @@ struct Totals {
     drops_other: u64,
     creates: u64,
     past: u64,
+    waker_drops: u64,
+    waker_creates: u64,
 }
 
 impl Totals {
@@ -1808,6 +1818,8 @@ impl Totals {
         self.drops_other += c.acts_drop_in_other_task.get();
         self.creates += c.acts_create.get();
         self.past += c.created_past.get();
+        self.waker_drops += c.waker_drops.get();
+        self.waker_creates += c.waker_creates.get();
     }
 
     fn report(&self, r: &mut Report) {
@@ -1833,6 +1845,10 @@ impl Totals {
         r.floor("cross-thread-wake", self.xw > 0);
         r.floor("drop-from-another-task", self.drops_other > 0);
         r.floor("timer-created-already-due", self.past > 0);
+        r.count("drops_inside_a_timer_waker", self.waker_drops as i64);
+        r.count("creates_inside_a_timer_waker", self.waker_creates as i64);
+        r.floor("drop-inside-timer-waker", self.waker_drops > 0);
+        r.floor("create-inside-timer-waker", self.waker_creates > 0);
         if self.mismatch > 0 {
             r.inconclusive("interval tick returned an instant outside the harness model of the next tick; timeout/wake rules for that tick are unreliable");
         }
